@@ -107,6 +107,24 @@ def denoteStack (bases : List Scope) (n splitter appender stacker reducer : Nat)
     states := [(splitter, spSt)] ++ ks.flatMap (fun k => (fold k).states)
       ++ bases.flatMap (fun B => ks.flatMap (fun k => (baseFold B k).states)) }
 
+/-- operators written against the composition API (`ApiOp`): a supplied path is mapped by its (stateless) worker, an
+omitted one is passed on untouched; `labelMix` rewrites the labels from the labels and the train-mode features and
+leaves both feature paths alone; `monitor` trains an actor on the side; `tee` changes nothing -/
+def denoteApi : ApiOp → Scope → Scope
+  | .extend oa ot ol _, S => fun xa xt xl =>
+    let s := S xa xt xl
+    { apply := match oa with | some t => .apply t .none [s.apply] | none => s.apply
+      train := match ot with | some t => .apply t .none [s.train] | none => s.train
+      label := match ol with | some t => .apply t .none [s.label] | none => s.label
+      states := s.states }
+  | .labelMix tag, S => fun xa xt xl =>
+    let s := S xa xt xl
+    { apply := s.apply, train := s.train, label := .apply tag .none [s.label, s.train], states := s.states }
+  | .monitor a, S => fun xa xt xl =>
+    let s := S xa xt xl
+    { apply := s.apply, train := s.train, label := s.label, states := s.states ++ [(a.tag, trainedState a s.train s.label)] }
+  | .tee _, S => S
+
 mutual
   /-- meaning of `e` composed onto a scope `S` -/
   def denoteC : Expr → Scope → Scope
@@ -118,6 +136,7 @@ mutual
     | .mapreduce ms r, S => denoteMapReduce ms r S
     | .debug a t, S => denoteDebug a t S
     | .stack bases n s a k r, S => denoteStack (denoteAll bases) n s a k r S
+    | .api op, S => denoteApi op S
 
   def denoteAll : List Expr → List Scope
     | [] => []
